@@ -155,6 +155,15 @@ def core_specs():
         S.append(dict(name='kldiv-' + form, atom='kldiv', form=form))
     for form in ['vars', 'affine', 'const_z']:
         S.append(dict(name='expcone-' + form, atom='expcone', form=form))
+    # the same descriptions through the dro front end (DecVar / DecAffine / DecConvex, dro.Model.do_math).  Members the
+    # dro front end rejects loudly (summed exp/log, KL divergence, rsocone: TypeError / AttributeError) are not included.
+    for sp in list(S):
+        if sp['atom'] in ('sumexp', 'sumlog', 'kldiv', 'rsocone'):
+            continue
+        d = dict(sp)
+        d['name'] = 'dro:' + sp['name']
+        d['front'] = 'dro'
+        S.append(d)
     S.append(dict(name='multi-atom', atom='multi', form='cons'))
     S.append(dict(name='int-abs', atom='intabs', form='cons'))
     return S
